@@ -45,7 +45,13 @@ EXPLANATION = (
     'compared with the number of selected carriers.  The profile '
     'discretisation runs on symbolic delays, sampling interval and dB powers '
     '(np.round as a half-even Int, np.unique forking on the comparisons, '
-    'log10/10**x as uninterpreted functions).  Every sat is replayed through '
+    'log10/10**x as uninterpreted functions).  Re-use histories drive ONE '
+    'object through transmissions in both domains interleaved with '
+    'switched_direction / set_num_antennas / set_pathloss changes and '
+    'repeated reads of the reported response; every transmission is compared '
+    'with first principles and with a fresh object put directly in the '
+    'current configuration whose generators hand out the same symbolic taps.  '
+    'Every sat is replayed through '
     'the public API on plain numpy data against an oracle written from the '
     'property text.')
 
@@ -930,7 +936,8 @@ class _ChannelHarness(Harness):
         cls = ''
         if only is not None:
             cls = sel_class(cfg['sels'][only], cfg['fft'])
-            if cls == 'slice:step-does-not-divide-span':
+            if cls == 'slice:step-does-not-divide-span' and all(
+                    _clause(b).startswith('exception') for b in A.bad):
                 # root cause site: every wrapper delegates to this method
                 return ('C03/TdlChannel.corrupt_data_in_freq_domain/' + cls)
         return 'C03/%s/%s%s' % (site, '+'.join(cl), ':' + cls if cls else '')
@@ -1273,7 +1280,7 @@ class History(_ChannelHarness):
         SINGLE + ':SuChannel.switched_direction',
         MULTI + ':MuChannel.corrupt_data_in_freq_domain',
         MULTI + ':MuChannel.switched_direction')
-    bounds = ('histories of 5-17 operations on one object: transmissions in '
+    bounds = ('histories of 5-22 operations on one object: transmissions in '
               'the time domain (1-4 symbols) and the frequency domain (fft 4 '
               'and 8, selections None / slices / index arrays / lists, 1-2 '
               'blocks) interleaved with switched_direction toggles (Tdl/Su/'
@@ -1294,9 +1301,7 @@ class History(_ChannelHarness):
     outside = TimeDomain.outside + (
         'reading the response between set_pathloss and the next '
         'transmission (which scaling it should carry is not stated; the read '
-        'is executed but not compared)',
-        'MuChannel.set_pathloss(None) and set_num_antennas(None, None) '
-        '(documented but raising; configurations behind %s=1)' % FLAG)
+        'is executed but not compared)', )
 
     def configs(self, tier):
         q = tier == 'quick'
@@ -1367,14 +1372,14 @@ class History(_ChannelHarness):
             out.append(dict(kind='mu', layout=lay, N=[2, 1], pl=True,
                             build='arrays' if q else 'raw', ts=ts,
                             ts2=None if q else ts2, ops=OPS_SHORT))
-        if os.environ.get(FLAG):
-            out += self.flagged_configs()
+        # documented calls that used to raise (fixed in /repo 7088375)
+        out += self.flagged_configs()
         return out
 
     @staticmethod
     def flagged_configs():
-        """documented calls that raise on the current /repo (reported, not
-        yet decided): only run with C03_HISTORY_FINDINGS=1"""
+        """documented calls (None disables the path loss / selects SISO)
+        that raised TypeError before /repo commit 7088375"""
         return [
             dict(kind='mu', layout='d02', N=[2, 2], pl=True,
                  flagged='MuChannel.set_pathloss(None)',
@@ -1386,6 +1391,10 @@ class History(_ChannelHarness):
                  flagged='SuChannel.set_num_antennas(None,None)',
                  ops=[['t', 2], ['ant', None, None], ['t', 2]]),
         ]
+
+    def _known_class(self, cfg, b):
+        # flagged configurations fail in concrete() by construction
+        return bool(cfg.get('flagged'))
 
     def _key(self, cfg, A, only=None):
         if cfg.get('flagged'):
@@ -2051,7 +2060,15 @@ MANIFEST = dict(
     'start/stop/step; the profile discretisation is proved to give strictly '
     'increasing integer delays equal to round-half-even(delay/Ts) with '
     'colliding powers added and normalised to one for symbolic delays, '
-    'sampling interval and powers (<= 3 taps, thorough 4).',
+    'sampling interval and powers (<= 3 taps, thorough 4), also when the '
+    'same profile object is discretised a second time with another '
+    'interval; histories of 5-22 operations on one re-used object '
+    '(direction toggles, set_num_antennas, set_pathloss set / changed / '
+    'removed, time <-> frequency domain, repeated get_last_impulse_response '
+    'and get_freq_response with several fft sizes, profiles handed over '
+    'discretised / raw + Ts / as arrays) are compared step by step with '
+    'first principles and with a fresh object in the final configuration '
+    'that sees the same taps.',
     note='floats as exact reals; fading generators are stubs (no statistics); '
     'layouts, antenna counts, fft sizes and tap counts bounded; two recorded '
     'findings: a slice step that does not divide the span, and profiles '
